@@ -1329,7 +1329,49 @@ def n4_catch_all(e: Engine, rep: Report):
                             getattr(c.call, '_orig', None) is v]
                     return any(c.ctx.func.name == '_get_error_reply'
                                for c in kids)
-                if defs:
+                # factory(get_reply()) with `get_reply = partial(self.m, x)`
+                # chosen per exception class: each choice is judged
+                pdefs = []
+                if not defs and isinstance(a, ast.Call) and \
+                        isinstance(a.func, ast.Name) and not a.args:
+                    cp = path_of(a.func, m.frame)
+                    pdefs = [s for s in inside if s.kind == 'stmt' and
+                             isinstance(s.ast, ast.Assign) and
+                             path_of(s.ast.targets[0], s.frame) == cp and
+                             fx.at(s) is not None]
+
+                def partial_ok(d):
+                    v = d.ast.value
+                    if not (isinstance(v, ast.Call) and
+                            ast.unparse(v.func).endswith('partial') and
+                            v.args and isinstance(v.args[0], ast.Attribute)):
+                        return False
+                    mname = v.args[0].attr
+                    if mname == '_get_error_reply':
+                        return True
+                    hm = e.p.lookup_method(ctx.self_cls or
+                                           ctx.func.cls.qname, mname)
+                    if hm is None or len(v.args) != 2:
+                        return False
+                    rets = [r for r in walk_own(hm.node)
+                            if isinstance(r, ast.Return)]
+                    prm = hm.params[1] if len(hm.params) > 1 else None
+                    shape = len(rets) == 1 and isinstance(
+                        rets[0].value, ast.Call) and isinstance(
+                        rets[0].value.func, ast.Attribute) and \
+                        rets[0].value.func.attr == 'copy' and \
+                        len(rets[0].value.args) == 1 and isinstance(
+                            rets[0].value.args[0], ast.Name) and \
+                        rets[0].value.args[0].id == prm
+                    code = common.reply_constant_code(e, v.args[1], d.ctx) \
+                        if isinstance(v.args[1], (ast.Name, ast.Attribute)) \
+                        else None
+                    return shape and code is not None and \
+                        str(code).startswith('4')
+                if pdefs:
+                    ok = all(partial_ok(d) for d in pdefs)
+                    n_f += len(pdefs) - 1
+                elif defs:
                     ok = all(from_error_reply(d.ast.value, d.frame) or
                              _transient_by_construction(e, g, fx, d,
                                                         d.ast.value)
